@@ -162,7 +162,8 @@ def judge(kind, cfg, obs, intr: Interrupts):
                 c = by_idx[idx]
                 if c.got_sigint:
                     add('worker-killed-by-sigint', f'worker for {tk} had not ignored SIGINT and was killed by the Ctrl-C')
-                elif c.state in ('terminated', 'killed'):
+                elif c.state == 'terminated' or (c.state == 'killed' and not getattr(c, 'doomed', False) and not getattr(c, 'self_killed', False)):
+                    # (a worker that dies by its own hand - the harness kills it - was not terminated by labtech)
                     add('executing-task-terminated', f'worker for {tk} was executing at the interrupt and was terminated')
                 else:
                     i = e2.node_of_key(cfg.spec).get(tk)
@@ -339,7 +340,7 @@ def run(tier: str, seed: int) -> Result:
     hs = harnesses(tier)
     only = os.environ.get('VERIF_C14_ONLY')      # debugging aid: restrict to harness kinds containing this text
     if only:
-        hs = [h for h in hs if only in h[0]]
+        hs = [h for h in hs if only in h[0] and (os.environ.get('VERIF_C14_DIED') is None or bool(h[1].base.died) == (os.environ['VERIF_C14_DIED'] == '1'))]
     counts = dict()
     for a, c in pmap(_count, [(k, cfg, d) for k, cfg, d in hs]):
         counts[(a[0], repr(a[1]))] = c
